@@ -62,7 +62,7 @@ MANIFEST = {
                  "offsets)",
 }
 CONFIGS = {
-    "quick": [("nofault", 40000), ("failing", 25000), ("extended", 5000)],
+    "quick": [("nofault", 26000), ("failing", 16000), ("extended", 3000)],
     "thorough": [("nofault", 5), ("failing", 4), ("extended", 1)],
 }
 CHUNK = 250
@@ -87,6 +87,11 @@ def _tmpdir():
 
 def generate(rng, config):
     n, clauses = cnfref.random_cnf(rng, max_vars=10, max_clauses=20)
+    if rng.random() < 0.1:
+        n = rng.choice([11, 12])
+        clauses = [[rng.choice([1, -1]) * rng.randint(1, n)
+                    for _ in range(rng.randint(1, 3))]
+                   for _ in range(rng.randint(0, 14))]
     if rng.random() < 0.08:
         n, clauses = 0, [[]] * rng.choice([0, 0, 1, 2])
     # installed solvers
